@@ -242,7 +242,8 @@ impl fmt::Display for Formatted<'_, Number> {
 
             if frac != 0. {
                 let max_decimals = 16 - whole.log10().ceil() as usize;
-                for _ in 1..max_decimals.min(self.format.precision) {
+                let decimals = max_decimals.min(self.format.precision);
+                for _ in 1..decimals {
                     frac *= 10.;
                     write!(dec, "{}", (frac as i8).abs())?;
                     frac = frac.fract();
@@ -250,7 +251,12 @@ impl fmt::Display for Formatted<'_, Number> {
                         break;
                     }
                 }
-                if frac != 0. {
+                if decimals == 0 {
+                    // No decimals to print; round to nearest integer.
+                    if frac.abs() >= 0.5 {
+                        whole += 1.;
+                    }
+                } else if frac != 0. {
                     let end = (frac * 10.).round().abs() as u8;
                     if end == 10 {
                         loop {
